@@ -48,22 +48,45 @@ const ATOM_CACHE_SIZE: usize = 256;
 
 #[derive(Debug, Clone)]
 pub struct AtomCache {
-    atoms: HashMap<u8, Atom>,
+    /// Cache slots, addressed by (segment index << 8) | internal segment index.
+    atoms: HashMap<u16, Atom>,
+    /// The atom cache references of the distribution header being decoded, in header order:
+    /// ATOM_CACHE_REF terms index this list, not the cache slots.
+    refs: Vec<Atom>,
 }
 
 impl AtomCache {
     pub fn new() -> Self {
         Self {
             atoms: HashMap::with_capacity(ATOM_CACHE_SIZE),
+            refs: Vec::new(),
         }
     }
 
     pub fn insert(&mut self, index: u8, atom: Atom) {
-        self.atoms.insert(index, atom);
+        self.atoms.insert(index as u16, atom);
     }
 
     pub fn get(&self, index: u8) -> Option<&Atom> {
-        self.atoms.get(&index)
+        self.atoms.get(&(index as u16))
+    }
+
+    fn insert_slot(&mut self, segment: u8, index: u8, atom: Atom) {
+        self.atoms.insert(((segment as u16) << 8) | index as u16, atom);
+    }
+
+    fn get_slot(&self, segment: u8, index: u8) -> Option<&Atom> {
+        self.atoms.get(&(((segment as u16) << 8) | index as u16))
+    }
+
+    /// Resolves an ATOM_CACHE_REF: the index is a position in the current header's reference list.
+    /// Without a header (a cache filled through `insert`) it addresses segment 0 directly.
+    fn resolve_ref(&self, index: u8) -> Option<&Atom> {
+        if self.refs.is_empty() {
+            self.get(index)
+        } else {
+            self.refs.get(index as usize)
+        }
     }
 
     pub fn len(&self) -> usize {
@@ -240,6 +263,7 @@ fn parse_versioned_term_with_cache<'a>(
     if tag == DIST_HEADER {
         parse_dist_header_with_cache(input, cache)
     } else {
+        cache.refs.clear();
         parse_term_from_tag(input, tag, cache)
     }
 }
@@ -291,7 +315,7 @@ fn parse_term_from_tag<'a>(
         LOCAL_EXT => parse_local_ext(input, cache),
         ATOM_CACHE_REF => {
             let (input, cache_index) = be_u8(input)?;
-            if let Some(atom) = cache.get(cache_index) {
+            if let Some(atom) = cache.resolve_ref(cache_index) {
                 log::debug!(
                     "Found ATOM_CACHE_REF index {} -> '{}'",
                     cache_index,
@@ -528,6 +552,7 @@ fn parse_dist_header_with_cache<'a>(
     cache: &mut AtomCache,
 ) -> NomResult<'a, OwnedTerm> {
     let (input, num_atom_cache_refs) = be_u8(input)?;
+    cache.refs.clear();
 
     if num_atom_cache_refs == 0 {
         return parse_term(input, cache);
@@ -552,6 +577,7 @@ fn parse_dist_header_with_cache<'a>(
         };
 
         let is_new_entry = (flag_nibble & 0x08) != 0;
+        let segment_index = flag_nibble & 0x07;
 
         if is_new_entry {
             let (new_input, atom_len) = if long_atoms {
@@ -572,8 +598,17 @@ fn parse_dist_header_with_cache<'a>(
                 atom_str,
                 internal_segment_index
             );
-            cache.insert(internal_segment_index, Atom::new(atom_str));
+            cache.insert_slot(segment_index, internal_segment_index, Atom::new(atom_str));
             input = new_input;
+        }
+
+        // every reference, new or not, names a slot that must hold an atom by now
+        match cache.get_slot(segment_index, internal_segment_index) {
+            Some(atom) => {
+                let atom = atom.clone();
+                cache.refs.push(atom);
+            }
+            None => return Err(nom::Err::Failure(NomError::new(input, ErrorKind::Tag))),
         }
     }
 
